@@ -29,10 +29,20 @@ for sid, code, wall, idents in rep:
     prop = sid.split('-')[0]
     rows.append('| %s | %s | %s | %s |' % (sid, summ, ('%s (%.0f s)' % (prop, wall)) if code == 1 else 'retired: no longer breaks the property on the repaired tree' if code == 'retired' else '**not caught** (exit %s)' % code,
                                          ', '.join('`%s`' % i.replace('|', '\\|')[:90] for i in idents[:2])))
-table = '\n'.join(rows) + '\n'
 p = os.path.join(HERE, 'DESIGN.md')
 s = open(p).read()
 a, b = s.index('<!-- SEEDED-TABLE-BEGIN -->'), s.index('<!-- SEEDED-TABLE-END -->')
+# rows of an earlier regression are kept for seeds that the given reports do not cover
+kept = {}
+for line in s[a:b].split('\n'):
+    m = re.match(r'\| (C\d\d-\d+) \|', line)
+    if m and m.group(1) not in rep_by_id:
+        kept[m.group(1)] = line
+body = {r.split(' | ')[0][2:]: r for r in rows[2:]}
+body.update(kept)
+rows = rows[:2] + [body[k] for k in sorted(body, key=_key)]
+table = '\n'.join(rows) + '\n'
 s = s[:a] + '<!-- SEEDED-TABLE-BEGIN -->\n' + table + s[b:]
 open(p, 'w').write(s)
+print('%d rows kept from the earlier table; ' % len(kept), end='')
 print('%d rows, %d caught; not caught: %s' % (len(rep), sum(1 for r in rep if r[1] == 1), [r[0] for r in rep if r[1] not in (1, 'retired')]))
